@@ -407,7 +407,7 @@ Qed.
    total 3, status Infeasible below 2 and Optimal from 2 on (Optimal is true of the rows for every k >= 2 by monotonicity,
    Infeasible for k < 2 because one element cannot be 1 and 3); conclusive everywhere; the search from lowerbound 0 tries 1, 2
    and reports 2 *)
-From FP Require Import AuditExamples.
+From FP Require Import AuditExamples12.
 Example C15_truthful_conclusive_status_exists :
   mg_parts au_mgs = None /\ (1 <= mg_mult au_mgs)%nat /\ mgs_domain au_mgs /\ (length (mg_numbers au_mgs) <= 2)%nat /\
   (forall k, au_status k = MgOptimal -> exists a, sat a (encode_mgs au_mgs k)) /\
